@@ -17,7 +17,7 @@ MATHML = "http://www.w3.org/1998/Math/MathML"
 XLINK = "http://www.w3.org/1999/xlink"
 MAXLEN = 64 * 1024
 
-for _p, _u in (("", CELLML2), ("mathml", MATHML), ("xlink", XLINK), ("cellml", CELLML2)):
+for _p, _u in (("", CELLML2), ("mathml", MATHML), ("xlink", XLINK)):
     try:
         ET.register_namespace(_p, _u)
     except ValueError:
